@@ -346,3 +346,6 @@ REGISTRY["C19"] = dict(engines=[engine_kcompose.run], rule=("K-compose cases: ra
                        "the composed DAG run on supplied values vs a plain-Python evaluation with the input statements overridden, the embedding relation (Iso.v) checked in coqc on the composed table, and the original DAG's value / table before and after; "
                        "distinct = hash of (program, inputs, outputs); non-trivial = at least 3 statements and at least one input"),
                        assumptions=VALUE_ASSUME)
+
+REGISTRY["C15"]["engines"] = [engine_khist.run, engine_kcompose.run]
+REGISTRY["C15"]["rule"] = HIST_RULE + " || compose() derivations: the original DAG's value and node table before and after composing and running the composed DAG (K-compose)"
